@@ -139,7 +139,8 @@ export function optionToArgsForCalling(jsValue, size, align, writeToArrayBufferC
         args = Array.from(buffer);
         args.push(1);
     } else {
-        args = Array(size / align).fill(0);
+        // 8-byte-aligned payloads are passed as i64 parameters, which only accept BigInts
+        args = Array(size / align).fill(align == 8 ? 0n : 0);
         args.push(0);
     }
 
